@@ -470,9 +470,23 @@ def r5_index_passes_agree(repo=None):
     return r
 
 
+def r6_capacity_from_window(repo=None):
+    """A file's capacity (max_samples_this_file) and the room left in it (samples_left) are the difference of the first samples
+    of two consecutive time windows, each obtained by the ceil helper from the boundary time: C04.R3, which is a necessary
+    condition of 'never holds more samples than the file's time window allows'."""
+    from . import c04
+    x = c04.r3_floor_ceil_pairing(repo)
+    old = x.rid
+    x.rid = "C06.R6"
+    for f in x.findings:
+        f.rule = "C06.R6"
+    x.title = "a file's sample capacity is derived from its own time window [= %s]" % old
+    return x
+
+
 def rules(repo=None):
     return [lambda: r1_attribute_tables(repo), lambda: r2_write_once(repo), lambda: r3_metadata_in_every_file(repo),
-            lambda: r4_regeneration_source(repo), lambda: r5_index_passes_agree(repo)]
+            lambda: r4_regeneration_source(repo), lambda: r5_index_passes_agree(repo), lambda: r6_capacity_from_window(repo)]
 
 
 EXPLANATION = (
@@ -484,6 +498,8 @@ EXPLANATION = (
     "only in the constructor; present_seq++ dominates the data-file create once per call. R3: every successful file creation "
     "passes digital_rf_write_metadata; the index is written after the data. R4: regeneration opens for writing only when the "
     "file does not exist and its glob matches every finalized RF file name and no tmp. name. R5: the counting pass and the filling "
-    "pass of digital_rf_create_rf_data_index add a row under the same predicates. Does NOT decide index row contents.")
+    "pass of digital_rf_create_rf_data_index add a row under the same predicates. R6 (= C04.R3): the file's capacity and the room "
+    "left in it are differences of two boundary samples obtained by the ceil helper from the printed name time and that time plus "
+    "one file cadence. Does NOT decide index row contents.")
 ASSUMPTIONS = ["HDF5 attribute API semantics", "clang 14 AST and CPython ast are faithful"]
 FILES = [C_LIB, "python/digital_rf/digital_rf_hdf5.py", "python/digital_rf/list_drf.py"]
